@@ -36,14 +36,26 @@ Shapes
   * locals not in a function's declared table get the type of the assignment that determines one, so a
     renamed local keeps compiling; declared names fix the order of loop-carried variables
 
-Translated (19 functions: 19 Definitions + 14 loop Fixpoints): NexusReader._new_taxon_namespace, _get_taxon_namespace, _get_taxon_symbol_mapper,
-_new_tree_list, _consume_to_end_of_block, _parse_title_statement, _parse_link_statement,
-_parse_dimensions_statement, _parse_tree_statement, _parse_characters_data_block (exclude_chars),
-_parse_trees_block, _parse_taxa_block, _parse_nexus_stream; NexusTreeDataYielder._yield_from_trees_block,
-_yield_items_from_stream; NewickTreeDataYielder._yield_items_from_stream; NewickReader.tree_iter;
-Tree._parse_and_create_from_stream, TreeList._parse_and_create_from_stream.
-Interface operations (not translated): tokenizer methods, _parse_taxlabels_statement, _parse_translate_statement,
-NewickReader._parse_tree_statement, the namespace / tree-list factories, registry appends, comment processing.
+Translated (27 functions: 27 Definitions + 16 loop Fixpoints): NexusReader._new_taxon_namespace, _get_taxon_namespace, _get_taxon_symbol_mapper, _new_tree_list,
+_parse_taxlabels_statement, _parse_translate_statement, _consume_to_end_of_block, _parse_title_statement,
+_parse_link_statement, _parse_dimensions_statement, _parse_tree_statement, _parse_characters_data_block (exclude_chars),
+_parse_trees_block, _parse_taxa_block, _parse_nexus_stream, _read; NexusTreeDataYielder._yield_from_trees_block,
+_yield_items_from_stream; NewickTreeDataYielder._yield_items_from_stream; NewickReader.tree_iter, _read;
+DataReader.read_tree_lists, read_dataset; Tree._parse_and_create_from_stream, TreeList._parse_and_create_from_stream,
+DataSet._parse_and_create_from_stream, TreeArray.read_from_files.
+Further shapes
+  * `for x in <finite list>` / `enumerate(..)` / an iterator value -> for_res (a monadic fold; the body may raise)
+  * `try: x = ns.require_taxon(label=..) except ImmutableTaxonNamespaceError: <raise an error built by a constructor>`
+    -> one atomic operation whose result None is the exception; <namespace>.is_mutable is followed as a local
+    (a call of a compiled method that constructs a NexusTaxonSymbolMapper over its argument sets it False)
+  * reader-level methods (_read, read_tree_lists, read_dataset): the reader attributes they assign are followed as
+    locals `v_self__<attr>` and become the configuration (nscfg, tl_factory, exclude_trees) of the compiled
+    _parse_nexus_stream; `self._read` (dispatched on the reader's class) is a function parameter
+  * factory expressions are values: lambda label: <namespace> -> fac_const, dataset.new_taxon_namespace -> FacNew,
+    dataset.new_tree_list -> Some TLNew, tree_list._tree_list_pseudofactory -> TLFixed, TreeList / lambda -> TLNew
+Interface operations (not translated): tokenizer methods (token record model), NewickReader._parse_tree_statement (abstract;
+property C02 compiles it), atomic operations on TaxonNamespace / Taxon / TreeList objects and label sets, comment
+processing, construction of the fresh reader state, which class get_reader / get_tree_yielder instantiate.
 """
 import ast
 import os
@@ -57,7 +69,11 @@ OUTPUT = "Routes.v"
 
 # configuration attributes with a fixed value on every route of the property
 CONFIG = {"exclude_chars": True, "store_ignored_blocks": False, "assume_newick_if_not_nexus": False,
-          "automatically_substitute_missing_taxa_blocks": False, "automatically_create_missing_taxa_blocks": False}
+          "automatically_substitute_missing_taxa_blocks": False, "automatically_create_missing_taxa_blocks": False,
+          "unconstrained_taxa_accumulation_mode": False,
+          "_ignored_blocks": False}      # (truthiness) nothing is stored with store_ignored_blocks = False
+# attributes of the objects the routes create that are constant: <TaxonNamespace>.is_case_sensitive
+OBJ_CONFIG = {("ons", "is_case_sensitive"): False}
 # configuration attributes kept as parameters of the generated section
 CONFIG_VARS = {"exclude_trees": "et"}
 
@@ -69,7 +85,17 @@ COQ_TYPES = {
     "otl": "option nat", "factory": "option nat", "comments": "list str", "otree": "option T", "tree": "T",
     "links": "links", "unit": "unit", "int": "Z", "olist": "list (list T)", "tlist": "list T", "oint": "option Z",
     "reader": "reader_obj T", "doc": "doc", "ns": "nat", "nslist": "list nat",
+    "otaxon": "otaxon", "sset": "sset", "otaxonlist": "list otaxon",
+    "nsfac": "tns_factory", "otlfac": "option tl_factory", "ounit": "option unit", "product": "gst", "tllist": "list nat",
+    "reader_read": "reader_read_t T", "odataset": "option nat", "dsval": "dsval T", "yielder": "yielder_t T",
 }
+
+# attributes of the reader object that the reader-level methods (_read, read_tree_lists, read_dataset) assign and
+# hand on: they are followed as locals `v_self__<attr>`; the ones a method reads before assigning are its inputs
+SELF_ATTRS = {"_taxon_namespace_factory": "nsfac", "_tree_list_factory": "otlfac", "exclude_trees": "bool",
+              "_char_matrix_factory": "ounit", "exclude_chars": "bool", "_state_alphabet_factory": "ounit",
+              "_global_annotations_target": "ounit", "_product": "product", "attached_taxon_namespace": "ons"}
+SELF_IN = ["attached_taxon_namespace", "exclude_trees", "exclude_chars"]
 
 # builtin exception classes -> class in PyPrims.err
 BUILTIN_RAISES = {"ValueError": "ValueErr", "IndexError": "IndexErr", "TypeError": "TypeErr"}
@@ -111,6 +137,13 @@ PLAN = [
           locals={"taxon_symbol_mapper": "omap"}, ret="omap")),
     ("nr", "NexusReader", "_new_tree_list",
      dict(params=[("taxon_namespace", "ons"), ("title", "ostr", "None")], locals={"tree_list": "otl"}, ret="otl")),
+    ("nr", "NexusReader", "_parse_taxlabels_statement",
+     dict(params=[("taxon_namespace", "ons", "None")],
+          locals={"token": "ostr", "label_set": "sset", "taxon": "otaxon", "label": "ostr", "check_label": "ostr"}, ret="unit")),
+    ("nr", "NexusReader", "_parse_translate_statement",
+     dict(params=[("taxon_namespace", "ons")], const_params={"taxon_symbol_mapper": "None"},
+          locals={"token": "ostr", "taxon_symbol_mapper": "omap", "translation_token": "ostr", "translation_label": "ostr",
+                  "taxon": "otaxon"}, ret="omap")),
     ("nr", "NexusReader", "_consume_to_end_of_block",
      dict(params=[("token", "ostr")], locals={}, ret="ostr")),
     ("nr", "NexusReader", "_parse_title_statement",
@@ -155,6 +188,33 @@ NEWICK = [
           locals={"tree": "otree"}, ret="unit")),
 ]
 
+# Reader-level methods (the glue between the entry points and the block loops): self attributes are followed as
+# locals; `self._read` (dispatched on the reader's class) is a function parameter of the DataReader methods.
+SELF_IN_PARAMS = [("self__attached_taxon_namespace", "ons"), ("self__exclude_trees", "bool"), ("self__exclude_chars", "bool")]
+READ_PARAMS = [("stream", "unit"), ("taxon_namespace_factory", "nsfac", "None"), ("tree_list_factory", "otlfac", "None"),
+               ("char_matrix_factory", "ounit", "None"), ("state_alphabet_factory", "ounit", "None"),
+               ("global_annotations_target", "ounit", "None")]
+READERS = [
+    ("nr", "NexusReader", "_read",
+     dict(name="nexus_read", self_attrs=True, params=READ_PARAMS, locals={}, ret="product")),
+    ("nwr", "NewickReader", "_read",
+     dict(name="newick_read", self_attrs=True, params=READ_PARAMS,
+          locals={"taxon_namespace": "ons", "tree_list": "otl", "taxon_symbol_mapper": "omap", "tree_factory": "factory",
+                  "product": "product"}, ret="product")),
+    ("ios", "DataReader", "read_tree_lists",
+     dict(name="read_tree_lists", self_attrs=True, fn_params=[("self___read", "reader_read")],
+          params=[("stream", "unit"), ("taxon_namespace_factory", "nsfac"), ("tree_list_factory", "otlfac"),
+                  ("global_annotations_target", "ounit", "None")],
+          locals={"product": "product"}, ret="olist")),
+    ("ios", "DataReader", "read_dataset",
+     dict(name="read_dataset", self_attrs=True, fn_params=[("self___read", "reader_read")],
+          params=[("stream", "unit"), ("dataset", "odataset"), ("taxon_namespace", "ons", "None"),
+                  ("exclude_trees", "bool", "false"), ("exclude_chars", "bool", "false"),
+                  ("state_alphabet_factory", "ounit", "None")],
+          locals={"taxon_namespace_factory": "nsfac", "tree_list_factory": "otlfac", "char_matrix_factory": "ounit",
+                  "product": "product"}, ret="product")),
+]
+
 # The two entry points with offsets.  Their Python parameters are (cls, stream, schema, collection_offset,
 # tree_offset, **kwargs); the statements in `setup` (object plumbing: keyword extraction, creation of the
 # namespace / target list / factories / reader) are required to be present verbatim and are not compiled -
@@ -193,9 +253,40 @@ ENTRY = [
           ])),
 ]
 
+ENTRY.append(
+    ("ds", "DataSet", "_parse_and_create_from_stream",
+     dict(name="dataset_parse_and_create_from_stream", entry=True, pyargs=["cls", "stream", "schema"],
+          params=[("reader", "reader"), ("stream", "doc"), ("taxon_namespace", "ons"), ("exclude_trees", "bool"),
+                  ("exclude_chars", "bool")],
+          locals={"dataset": "dsval"}, ret="dsval", tl_factories={}, ns_factories=[],
+          setup=[
+              "exclude_trees = kwargs.pop('exclude_trees', False)",
+              "exclude_chars = kwargs.pop('exclude_chars', False)",
+              "taxon_namespace = taxonmodel.process_kwargs_dict_for_taxon_namespace(kwargs, None)",
+              "label = kwargs.pop('label', None)",
+              "reader = dataio.get_reader(schema, **kwargs)",
+          ])))
+
+# TreeArray.read_from_files (the path of TreeArray.read): `self` is followed through the trees passed to add_tree
+# (in-out parameter `added`); the iterator Tree.yield_from_files returns is a parameter: what it hands out and how it ends
+ENTRY.append(
+    ("tc", "TreeArray", "read_from_files",
+     dict(name="treearray_read_from_files", entry=True, pyargs=["self", "files", "schema"],
+          params=[("tree_yielder", "yielder"), ("target_tree_offset", "int"), ("added", "tlist")], inout=["added"],
+          adds_to="added",
+          locals={"current_source_index": "oint", "current_tree_offset": "oint", "current_yielder_index": "int"}, ret="unit",
+          tl_factories={}, ns_factories=[],
+          setup=[
+              "if 'taxon_namespace' in kwargs:\n    if kwargs['taxon_namespace'] is not self.taxon_namespace:\n        raise ValueError(\"TaxonNamespace object passed as keyword argument is not the same as self's TaxonNamespace reference\")\n    kwargs.pop('taxon_namespace')",
+              "target_tree_offset = kwargs.pop('tree_offset', 0)",
+              "tree_yielder = self.tree_type.yield_from_files(files=files, schema=schema, taxon_namespace=self.taxon_namespace, **kwargs)",
+          ])))
+
 FILES = {
+    "ds": "src/dendropy/datamodel/datasetmodel.py",
     "nr": "src/dendropy/dataio/nexusreader.py",
     "ny": "src/dendropy/dataio/nexusyielder.py",
+    "ios": "src/dendropy/dataio/ioservice.py",
     "nwy": "src/dendropy/dataio/newickyielder.py",
     "nwr": "src/dendropy/dataio/newickreader.py",
     "tm": "src/dendropy/datamodel/treemodel/_tree.py",
@@ -297,15 +388,19 @@ class Fn:
     # ---------------------------------------------------------------- pure expressions
     def config_const(self, n):
         """constant value of a folded configuration attribute, or None"""
+        if self.spec.get("self_attrs") and self.is_self_attr(n) and n.attr in SELF_ATTRS:
+            return None
         if self.is_self_attr(n) and n.attr in CONFIG:
             return CONFIG[n.attr]
+        if isinstance(n, ast.Attribute) and isinstance(n.value, ast.Name) and (self.types.get(n.value.id), n.attr) in OBJ_CONFIG:
+            return OBJ_CONFIG[(self.types.get(n.value.id), n.attr)]
         return None
 
     def pure(self, n, want=None):
         """(text, type) of a side-effect free expression"""
         if isinstance(n, ast.Constant):
             if n.value is None:
-                if want in ("ostr", "ons", "omap", "otl", "otree", "factory", "oint", None):
+                if want in ("ostr", "ons", "omap", "otl", "otree", "factory", "oint", "otlfac", "ounit", "odataset", None):
                     return "None", want or "ostr"
                 raise Unsupported("None for %s" % want)
             if n.value is True or n.value is False:
@@ -328,6 +423,13 @@ class Fn:
             return "(tk_current_token s)", "ostr"
         if a == "is_token_quoted":
             return "(tk_is_token_quoted s)", "bool"
+        if self.spec.get("self_attrs") and self.is_self_attr(n) and n.attr in SELF_ATTRS:
+            a = "self__" + n.attr
+            if a not in self.types:
+                raise Unsupported("%s: self.%s read before it is known" % (self.name, n.attr))
+            return "v_" + a, SELF_ATTRS[n.attr]
+        if isinstance(n, ast.Attribute) and n.attr == "tree_lists" and isinstance(n.value, ast.Name) and self.types.get(n.value.id) == "product":
+            return "(rs_blocks T v_%s)" % n.value.id, "olist"
         if self.is_self_attr(n):
             if n.attr in CONFIG:
                 return ("true" if CONFIG[n.attr] else "false"), "bool"
@@ -346,6 +448,24 @@ class Fn:
                 and self.types.get(n.value.id) == "otl":
             return "v_" + n.value.id, "factory"   # <TreeList>.new_tree
         if isinstance(n, ast.Call):
+            # self.Product(taxon_namespaces=.., tree_lists=.., char_matrices=..)
+            if self.is_self_attr(n.func, "Product") and not n.args and sorted(k.arg for k in n.keywords) == ["char_matrices", "taxon_namespaces", "tree_lists"]:
+                kws = {k.arg: k.value for k in n.keywords}
+                for key, attr in (("taxon_namespaces", "_taxon_namespaces"), ("char_matrices", "_char_matrices")):
+                    v = kws[key]
+                    if not (self.is_self_attr(v, attr) or (isinstance(v, ast.Constant) and v.value is None)):
+                        raise Unsupported("%s: Product(%s=..)" % (self.name, key))
+                tl = kws["tree_lists"]
+                if self.is_self_attr(tl, "_tree_lists"):
+                    lst = "(rd_tree_lists s)"
+                elif isinstance(tl, ast.List) and all(isinstance(e, ast.Name) and self.types.get(e.id) == "otl" for e in tl.elts):
+                    lst = "[" + "; ".join("on_get v_%s" % e.id for e in tl.elts) + "]"
+                else:
+                    raise Unsupported("%s: Product(tree_lists=..)" % self.name)
+                return "(ifc_product s %s)" % lst, "product"
+            if isinstance(n.func, ast.Name) and n.func.id == "set" and len(n.args) == 1 \
+                    and isinstance(n.args[0], ast.List) and not n.args[0].elts and not n.keywords:
+                return "sset_empty", "sset"
             m = self.tokenizer_call(n)
             if m == "is_eof" and not n.args and not n.keywords:
                 return "(tk_is_eof s)", "bool"
@@ -355,6 +475,8 @@ class Fn:
                     return "(o_upper %s)" % recv, "ostr"
                 if n.func.attr == "isdigit" and rt == "ostr":
                     return "(o_isdigit %s)" % recv, "bool"
+                if n.func.attr == "lower" and rt == "ostr":
+                    return "(o_lower %s)" % recv, "ostr"
             if isinstance(n.func, ast.Attribute) and n.func.attr == "get" and len(n.args) == 1 and not n.keywords \
                     and isinstance(n.args[0], ast.Constant) and n.args[0].value in ("taxa", "characters"):
                 recv, rt = self.pure(n.func.value)
@@ -363,6 +485,16 @@ class Fn:
             if isinstance(n.func, ast.Name) and n.func.id == "len" and len(n.args) == 1 and not n.keywords \
                     and self.is_self_attr(n.args[0], "_taxon_namespaces"):
                 return "(rd_ns_count s)", "int"
+            if isinstance(n.func, ast.Name) and n.func.id == "len" and len(n.args) == 1 and not n.keywords \
+                    and isinstance(n.args[0], ast.Name) and self.types.get(n.args[0].id) == "ons":
+                return "(rd_ns_len s v_%s)" % n.args[0].id, "int"
+            # <TaxonNamespace>.get_taxon(label=e)
+            if isinstance(n.func, ast.Attribute) and n.func.attr == "get_taxon" and isinstance(n.func.value, ast.Name) \
+                    and self.types.get(n.func.value.id) == "ons" and not n.args and [k.arg for k in n.keywords] == ["label"]:
+                e, ety = self.pure(n.keywords[0].value)
+                if ety != "ostr":
+                    raise Unsupported("%s: get_taxon(label=%s)" % (self.name, ety))
+                return "(rd_ns_get_taxon s v_%s %s)" % (n.func.value.id, e), "otaxon"
             if isinstance(n.func, ast.Name) and n.func.id == "len" and len(n.args) == 1 and not n.keywords:
                 recv, rt = self.pure(n.args[0])
                 if rt in ("tlist", "olist", "nslist"):
@@ -374,8 +506,49 @@ class Fn:
             raise Unsupported("%s: call %s" % (self.name, ast.dump(n)[:120]))
         if isinstance(n, ast.Dict) and not n.keys:
             return "links_empty", "links"
+        if isinstance(n, ast.Attribute) and n.attr == "current_file_index" and isinstance(n.value, ast.Name) \
+                and self.types.get(n.value.id) == "yielder":
+            return "(yl_file_index v_%s)" % n.value.id, "int"
+        # <DataSet>.attached_taxon_namespace ; the DataSet's bound factory methods
+        if isinstance(n, ast.Attribute) and isinstance(n.value, ast.Name) and self.types.get(n.value.id) == "odataset":
+            if n.attr == "attached_taxon_namespace":
+                return "v_" + n.value.id, "ons"
+            if n.attr == "new_taxon_namespace":
+                return "FacNew", "nsfac"
+            if n.attr == "new_tree_list":
+                return "(Some TLNew)", "otlfac"
+            if n.attr == "new_char_matrix":
+                return "(Some tt)", "ounit"
+        if isinstance(n, ast.Attribute) and isinstance(n.value, ast.Name) and self.types.get(n.value.id) == "dsval" \
+                and n.attr == "attached_taxon_namespace":
+            return "(fst v_%s)" % n.value.id, "ons"
+        # lambda label : <a namespace object>   (a factory that returns the namespace it closes over, whatever the label)
+        if isinstance(n, ast.Lambda) and [a.arg for a in n.args.args] == ["label"] and not n.args.defaults \
+                and n.args.vararg is None and n.args.kwarg is None:
+            b, bty = self.pure(n.body)
+            if bty != "ons":
+                raise Unsupported("%s: lambda returning %s" % (self.name, bty))
+            return "(fac_const %s)" % b, "nsfac"
         if isinstance(n, ast.List) and not n.elts and want == "nslist":
             return "[]", "nslist"
+        # set([])
+        if isinstance(n, ast.Call) and isinstance(n.func, ast.Name) and n.func.id == "set" and len(n.args) == 1 \
+                and isinstance(n.args[0], ast.List) and not n.args[0].elts and not n.keywords:
+            return "sset_empty", "sset"
+        # <Taxon>.label / .lower_cased_label ;  <TaxonNamespace>._taxa / .is_mutable
+        if isinstance(n, ast.Attribute) and isinstance(n.value, ast.Name):
+            vt = self.types.get(n.value.id)
+            if vt == "otaxon" and n.attr == "label":
+                return "(tx_label v_%s)" % n.value.id, "ostr"
+            if vt == "otaxon" and n.attr == "lower_cased_label":
+                return "(tx_lower_label v_%s)" % n.value.id, "ostr"
+            if vt == "ons" and n.attr == "_taxa":
+                return "(rd_ns_members s v_%s)" % n.value.id, "otaxonlist"
+            if vt == "ons" and n.attr == "is_mutable":
+                a = "%s__is_mutable" % n.value.id
+                if a not in self.types:
+                    raise Unsupported("%s: %s.is_mutable read before it is known" % (self.name, n.value.id))
+                return "v_" + a, "bool"
         # <namespace>.label
         if isinstance(n, ast.Attribute) and n.attr == "label" and isinstance(n.value, ast.Name) and self.types.get(n.value.id) == "ns":
             return "(rd_ns_label s v_%s)" % n.value.id, "ostr"
@@ -422,6 +595,9 @@ class Fn:
             if isinstance(op, ast.In) and isinstance(right, ast.List) and all(isinstance(e, ast.Constant) and isinstance(e.value, str) for e in right.elts) \
                     and ltype == "ostr":
                 return "(" + " || ".join("o_eq %s %s" % (lt, coq_str(e.value)) for e in right.elts) + ")", None
+            if isinstance(op, (ast.In, ast.NotIn)) and isinstance(right, ast.Name) and self.types.get(right.id) == "sset" and ltype == "ostr":
+                t = "(sset_mem %s v_%s)" % (lt, right.id)
+                return ("(negb %s)" % t if isinstance(op, ast.NotIn) else t), None
             if isinstance(op, (ast.GtE, ast.Gt, ast.LtE, ast.Lt)):
                 rt_, rtype = self.pure(right)
 
@@ -437,13 +613,23 @@ class Fn:
                 raise Unsupported("%s: comparison operator %s" % (self.name, type(op).__name__))
             if isinstance(right, ast.Constant) and right.value is None:
                 fn = {"ostr": "o_is_none", "ons": "on_is_none", "otl": "on_is_none", "omap": "om_is_none", "otree": "ot_is_none",
-                      "oint": "oz_is_none"}.get(ltype)
+                      "oint": "oz_is_none", "otlfac": "opt_is_none", "ounit": "opt_is_none", "odataset": "on_is_none"}.get(ltype)
                 if fn is None:
                     raise Unsupported("%s: None test on %s" % (self.name, ltype))
                 t = "(%s %s)" % (fn, lt)
             elif isinstance(right, ast.Constant) and isinstance(right.value, str) and ltype == "ostr" \
                     and isinstance(op, (ast.Eq, ast.NotEq)):
                 t = "(o_eq %s %s)" % (lt, coq_str(right.value))
+            elif ltype == "ons" and isinstance(op, (ast.Is, ast.IsNot)) and not isinstance(right, ast.Constant):
+                rt_, rtype = self.pure(right)
+                if rtype != "ons":
+                    raise Unsupported("%s: identity test with %s" % (self.name, rtype))
+                t = "(on_same %s %s)" % (lt, rt_)
+            elif ltype == "oint" and isinstance(op, (ast.Eq, ast.NotEq)) and not isinstance(right, ast.Constant):
+                rt_, rtype = self.pure(right)
+                if rtype != "int":
+                    raise Unsupported("%s: optional int == %s" % (self.name, rtype))
+                t = "(oz_eqb %s %s)" % (lt, rt_)
             elif ltype == "int" and isinstance(op, (ast.Eq, ast.NotEq)):
                 rt_, rtype = self.pure(right)
                 if rtype != "int":
@@ -465,6 +651,8 @@ class Fn:
             return "(o_truthy %s)" % t, None
         if ty in ("tlist", "olist"):
             return "(negb (is_nil %s))" % t, None
+        if ty == "ons":
+            return "(rd_ns_truthy s %s)" % t, None      # a TaxonNamespace is falsy when it has no members
         raise Unsupported("%s: truthiness of %s" % (self.name, ty))
 
     # ---------------------------------------------------------------- effects
@@ -498,16 +686,81 @@ class Fn:
             raise Unsupported("%s: unexpected arguments in call %s" % (self.name, ast.dump(call)[:160]))
         return out
 
+    def self_in_args(self):
+        out = []
+        for a in SELF_IN:
+            if ("self__" + a) not in self.types:
+                raise Unsupported("%s: self.%s is not known at the call" % (self.name, a))
+            out.append("v_self__" + a)
+        return " ".join(out)
+
+    def reader_level_effect(self, call):
+        """calls in _read / read_tree_lists / read_dataset: the reader's main routine with the configuration the
+        followed attributes hold, the dynamically dispatched self._read, the factories received as parameters"""
+        if not self.spec.get("self_attrs"):
+            return None
+        f = call.func
+        if self.is_self_attr(f, "_parse_nexus_stream"):
+            if len(call.args) != 1 or call.keywords:
+                raise Unsupported("%s: _parse_nexus_stream arguments" % self.name)
+            st, sty = self.pure(call.args[0])
+            need = ["self__exclude_chars", "self__exclude_trees", "self__attached_taxon_namespace",
+                    "self___taxon_namespace_factory", "self___tree_list_factory"]
+            for a in need:
+                if a not in self.types:
+                    raise Unsupported("%s: %s is not known at the call of _parse_nexus_stream" % (self.name, a))
+            op = ("(if v_self__exclude_chars then g_parse_nexus_stream T lower upper parse_tree set_label add_comments "
+                  "(mkNsCfg (negb (on_is_none v_self__attached_taxon_namespace)) v_self___taxon_namespace_factory) "
+                  "(otlf_get v_self___tree_list_factory) v_self__exclude_trees fuel s %s "
+                  "else Err OtherErr (* characters are read: not compiled *))" % st)
+            return op, "unit", [], None
+        if self.is_self_attr(f, "_read"):
+            order = ["stream", "taxon_namespace_factory", "tree_list_factory", "char_matrix_factory",
+                     "state_alphabet_factory", "global_annotations_target"]
+            tys = ["unit", "nsfac", "otlfac", "ounit", "ounit", "ounit"]
+            kws = {k.arg: k.value for k in call.keywords}
+            if call.args or sorted(kws) != sorted(order):
+                raise Unsupported("%s: arguments of self._read" % self.name)
+            args = []
+            for key, ty in zip(order, tys):
+                t, aty = self.pure(kws[key], want=ty)
+                if key == "global_annotations_target" and aty == "odataset":
+                    t, aty = "(Some tt)", "ounit"          # a DataSet object: not None
+                if aty != ty:
+                    raise Unsupported("%s: self._read(%s=%s)" % (self.name, key, aty))
+                args.append(t)
+            return "v_self___read fuel s %s %s" % (self.self_in_args(), " ".join(args)), "product", [], None
+        if isinstance(f, ast.Name) and self.types.get(f.id) == "nsfac":
+            kws = {k.arg: k.value for k in call.keywords}
+            if call.args or sorted(kws) != ["label"]:
+                raise Unsupported("%s: arguments of the namespace factory" % self.name)
+            lab, lty = self.pure(kws["label"], want="ostr")
+            return "ifc_ns_factory_of v_%s s %s" % (f.id, lab), "ons", [], None
+        if isinstance(f, ast.Name) and self.types.get(f.id) == "otlfac":
+            kws = {k.arg: k.value for k in call.keywords}
+            if call.args or sorted(kws) != ["label", "taxon_namespace"]:
+                raise Unsupported("%s: arguments of the tree list factory" % self.name)
+            lab, lty = self.pure(kws["label"], want="ostr")
+            ns, nty = self.pure(kws["taxon_namespace"], want="ons")
+            if nty != "ons":
+                raise Unsupported("%s: tree list factory namespace %s" % (self.name, nty))
+            return "ifc_tree_list_factory_of v_%s s %s %s" % (f.id, ns, lab), "otl", [], None
+        return None
+
     def effect(self, call):
         """an effectful call -> (operation text, value type, [in-out variable names in result order], accession factory text or None)"""
+        rl = self.reader_level_effect(call)
+        if rl is not None:
+            return rl
         m = self.tokenizer_call(call)
         if m is not None:
             if m not in TOKENIZER:
                 raise Unsupported("%s: tokenizer method %s" % (self.name, m))
             prim, fuel, ty = TOKENIZER[m]
             if m == "process_and_clear_comments_for_item":
-                ok = len(call.args) == 2 and self.is_self_attr(call.args[0], "_global_annotations_target") \
-                    and self.is_self_attr(call.args[1], "extract_comment_metadata") and not call.keywords
+                first_ok = len(call.args) == 2 and (self.is_self_attr(call.args[0], "_global_annotations_target") or
+                                                    (isinstance(call.args[0], ast.Name) and self.types.get(call.args[0].id) == "otaxon"))
+                ok = first_ok and self.is_self_attr(call.args[1], "extract_comment_metadata") and not call.keywords
                 if not ok:
                     raise Unsupported("%s: arguments of process_and_clear_comments_for_item" % self.name)
             elif call.args or call.keywords:
@@ -516,6 +769,12 @@ class Fn:
         np = self.newick_parse_call(call)
         if np is not None:
             return np
+        if isinstance(call.func, ast.Attribute) and call.func.attr == "new_taxon" and isinstance(call.func.value, ast.Name) \
+                and self.types.get(call.func.value.id) == "ons" and not call.args and [k.arg for k in call.keywords] == ["label"]:
+            e, ety = self.pure(call.keywords[0].value)
+            if ety != "ostr":
+                raise Unsupported("%s: new_taxon(label=%s)" % (self.name, ety))
+            return "ifc_ns_new_taxon s v_%s %s" % (call.func.value.id, e), "otaxon", [], None
         sm = self.self_call(call)
         if sm is not None:
             if sm in self.translated:
@@ -576,10 +835,20 @@ class Fn:
     def is_effect(self, n):
         if not isinstance(n, ast.Call):
             return False
+        if self.is_self_attr(n.func, "Product"):
+            return False
+        if self.spec.get("self_attrs"):
+            if self.is_self_attr(n.func, "_parse_nexus_stream") or self.is_self_attr(n.func, "_read"):
+                return True
+            if isinstance(n.func, ast.Name) and self.types.get(n.func.id) in ("nsfac", "otlfac"):
+                return True
+        if isinstance(n.func, ast.Attribute) and n.func.attr == "new_taxon" and isinstance(n.func.value, ast.Name) \
+                and self.types.get(n.func.value.id) == "ons":
+            return True
         if isinstance(n.func, ast.Attribute) and n.func.attr == "_parse_tree_statement" and \
                 (self.is_self_attr(n.func.value, "newick_reader") or self.spec.get("own_parse")):
             return True
-        if self.entry and isinstance(n.func, ast.Attribute) and n.func.attr == "read_tree_lists":
+        if self.entry and isinstance(n.func, ast.Attribute) and n.func.attr in ("read_tree_lists", "read_dataset"):
             return True
         m = self.tokenizer_call(n)
         if m is not None:
@@ -603,16 +872,31 @@ class Fn:
                             add(t.id)
                         elif isinstance(t, ast.Subscript) and isinstance(t.value, ast.Name):
                             add(t.value.id)
+                        elif isinstance(t, ast.Attribute) and isinstance(t.value, ast.Name) and t.value.id == "self" \
+                                and self.spec.get("self_attrs") and t.attr in SELF_ATTRS:
+                            add("self__" + t.attr)
                         elif isinstance(t, ast.Attribute) and isinstance(t.value, ast.Name) and t.value.id != "self":
-                            add(t.value.id)
+                            if t.attr == "is_mutable":
+                                add(t.value.id + "__is_mutable")
+                            else:
+                                add(t.value.id)
                 elif isinstance(n, ast.For) and isinstance(n.target, ast.Name):
                     add(n.target.id)
                 elif isinstance(n, ast.Call):
                     if self.entry and isinstance(n.func, ast.Attribute) and n.func.attr == "read_tree_lists" and self.spec.get("target_list"):
                         add(self.spec["target_list"])
+                    if self.entry and isinstance(n.func, ast.Attribute) and n.func.attr == "read_dataset":
+                        for k in n.keywords:
+                            if k.arg == "dataset" and isinstance(k.value, ast.Name):
+                                add(k.value.id)
                     if isinstance(n.func, ast.Attribute) and n.func.attr == "append" and isinstance(n.func.value, ast.Name) \
                             and self.types.get(n.func.value.id) == "nslist":
                         add(n.func.value.id)
+                    if isinstance(n.func, ast.Attribute) and isinstance(n.func.value, ast.Name) and \
+                            (n.func.attr, self.types.get(n.func.value.id)) in (("add", "sset"), ("add_translate_token", "omap")):
+                        add(n.func.value.id)
+                    if self.spec.get("adds_to") and self.is_self_attr(n.func, "add_tree"):
+                        add(self.spec["adds_to"])
                     if self.entry and isinstance(n.func, ast.Attribute) and n.func.attr == "append" and isinstance(n.func.value, ast.Attribute) \
                             and n.func.value.attr == "_trees" and isinstance(n.func.value.value, ast.Name):
                         add(n.func.value.value.id)
@@ -620,6 +904,8 @@ class Fn:
                         for k in n.keywords:
                             if k.arg == "taxon_symbol_map_fn" and isinstance(k.value, ast.Attribute) and isinstance(k.value.value, ast.Name):
                                 add(k.value.value.id)
+                    for lv in self.locked_by(n):
+                        add(lv + "__is_mutable")
                     sm = self.self_call(n)
                     io = None
                     if sm in self.translated:
@@ -647,6 +933,8 @@ class Fn:
             for n in ast.walk(st):
                 if isinstance(n, ast.Name) and n.id in self.types and n.id not in out:
                     out.append(n.id)
+                if isinstance(n, ast.Name) and (n.id + "__is_mutable") in self.types and (n.id + "__is_mutable") not in out:
+                    out.append(n.id + "__is_mutable")
         return out
 
     def block(self, stmts, k, env):
@@ -681,7 +969,23 @@ class Fn:
         if isinstance(st, ast.Assign) and len(st.targets) == 1:
             return self.assign(st.targets[0], st.value, after, env)
         if isinstance(st, ast.If):
+            # a parameter the routes never pass (declared constant None): `if p is None:` before p is assigned
+            t = st.test
+            if isinstance(t, ast.Compare) and len(t.ops) == 1 and isinstance(t.ops[0], (ast.Is, ast.IsNot)) \
+                    and isinstance(t.left, ast.Name) and t.left.id in self.spec.get("const_params", {}) \
+                    and t.left.id not in env["defined"] and isinstance(t.comparators[0], ast.Constant) and t.comparators[0].value is None:
+                taken = st.body if isinstance(t.ops[0], ast.Is) else st.orelse
+                return self.block(list(taken) + list(rest), k, env)
             return self.if_stmt(st, after, env)
+        if isinstance(st, ast.Try):
+            return self.try_stmt(st, after, env)
+        if isinstance(st, ast.AugAssign) and isinstance(st.target, ast.Name) and isinstance(st.op, (ast.Add, ast.Sub)):
+            name = st.target.id
+            v, ty = self.pure(st.value)
+            if self.types.get(name) != "oint" or ty != "int" or name not in env["defined"]:
+                raise Unsupported("%s: %s += %s" % (self.name, name, ty))
+            sign = "" if isinstance(st.op, ast.Add) else "-"
+            return "let v_%s : option Z := oz_add v_%s (%s%s)%%Z in\n%s" % (name, name, sign, v, after(env))
         if isinstance(st, ast.While):
             return self.while_stmt(st, after, env)
         if isinstance(st, ast.For):
@@ -695,12 +999,62 @@ class Fn:
                 raise Unsupported("%s: statements after break" % self.name)
             return env["break"](env)
         if isinstance(st, ast.Return):
+            if env.get("in_for"):
+                raise Unsupported("%s: return inside a for loop" % self.name)
             if "break" in env:
                 if env.get("ret_break") and st.value is None and not rest:
                     return env["break"](env)
                 raise Unsupported("%s: return inside a loop" % self.name)
             return self.return_stmt(st, env)
         raise Unsupported("%s: statement %s" % (self.name, type(st).__name__))
+
+    def try_stmt(self, st, after, env):
+        """try: x = <ns>.require_taxon(label=e)
+           except error.ImmutableTaxonNamespaceError: exc = self.<error constructor>(..); exc.__context__ = None; ..; raise exc"""
+        ok = len(st.body) == 1 and isinstance(st.body[0], ast.Assign) and len(st.body[0].targets) == 1 \
+            and isinstance(st.body[0].targets[0], ast.Name) and len(st.handlers) == 1 and not st.orelse and not st.finalbody
+        if not ok:
+            raise Unsupported("%s: try statement shape" % self.name)
+        target = st.body[0].targets[0].id
+        call = st.body[0].value
+        h = st.handlers[0]
+        ok = isinstance(call, ast.Call) and isinstance(call.func, ast.Attribute) and call.func.attr == "require_taxon" \
+            and isinstance(call.func.value, ast.Name) and self.types.get(call.func.value.id) == "ons" \
+            and not call.args and [k.arg for k in call.keywords] == ["label"] \
+            and isinstance(h.type, ast.Attribute) and h.type.attr == "ImmutableTaxonNamespaceError" and h.name is None
+        if not ok or self.types.get(target) != "otaxon":
+            raise Unsupported("%s: try statement: only require_taxon / ImmutableTaxonNamespaceError" % self.name)
+        ns = call.func.value.id
+        e, ety = self.pure(call.keywords[0].value)
+        if ety != "ostr":
+            raise Unsupported("%s: require_taxon(label=%s)" % (self.name, ety))
+        a = ns + "__is_mutable"
+        if a not in env["defined"]:
+            raise Unsupported("%s: %s.is_mutable is not known at require_taxon" % (self.name, ns))
+        # handler: local exception object built by an error constructor, its dunder attributes cleared, raised
+        exc_src = {}
+        raised = None
+        for hs in h.body:
+            if isinstance(hs, ast.Assign) and len(hs.targets) == 1 and isinstance(hs.targets[0], ast.Name) \
+                    and isinstance(hs.value, ast.Call) and self.is_self_attr(hs.value.func) and hs.value.func.attr in RAISES:
+                exc_src[hs.targets[0].id] = RAISES[hs.value.func.attr]
+            elif isinstance(hs, ast.Assign) and len(hs.targets) == 1 and isinstance(hs.targets[0], ast.Attribute) \
+                    and isinstance(hs.targets[0].value, ast.Name) and hs.targets[0].value.id in exc_src \
+                    and hs.targets[0].attr in ("__context__", "__cause__") and isinstance(hs.value, ast.Constant) and hs.value.value is None:
+                pass
+            elif isinstance(hs, ast.Raise) and isinstance(hs.exc, ast.Name) and hs.exc.id in exc_src and hs is h.body[-1]:
+                raised = exc_src[hs.exc.id]
+            elif isinstance(hs, ast.Raise) and hs is h.body[-1] and isinstance(hs.exc, ast.Call) and self.is_self_attr(hs.exc.func) \
+                    and hs.exc.func.attr in RAISES:
+                raised = RAISES[hs.exc.func.attr]
+            else:
+                raise Unsupported("%s: statement in except handler" % self.name)
+        if raised is None:
+            raise Unsupported("%s: except handler does not raise" % self.name)
+        r = self.fresh()
+        rest = after(self.define(env, target))
+        return self.bind("ifc_ns_require_taxon s v_%s v_%s %s" % (ns, a, e), "(%s, s)" % r,
+                         "match %s with\n| None => %s\n| Some v_%s =>\n%s\nend" % (r, self.err(raised), target, rest))
 
     def raise_stmt(self, st):
         e = st.exc
@@ -757,6 +1111,34 @@ class Fn:
             if xt == "tree":
                 return "let %s := ifc_comments_for_tree %s %s in\n%s" % (x, x, cs, after(env))
             raise Unsupported("%s: process_comments_for_item on %s" % (self.name, xt))
+        # self.add_tree(tree=x, is_bipartitions_updated=False)   (TreeArray: followed through the trees it is given)
+        if self.entry and target is None and self.spec.get("adds_to") and self.is_self_attr(call.func, "add_tree") and not call.args \
+                and sorted(k.arg for k in call.keywords) == ["is_bipartitions_updated", "tree"]:
+            kws = {k.arg: k.value for k in call.keywords}
+            t, tty = self.pure(kws["tree"])
+            b = kws["is_bipartitions_updated"]
+            if tty != "tree" or not (isinstance(b, ast.Constant) and b.value is False):
+                raise Unsupported("%s: add_tree arguments" % self.name)
+            x = "v_" + self.spec["adds_to"]
+            return "let %s : list T := %s ++ [%s] in\n%s" % (x, x, t, after(env))
+        # <set>.add(e)
+        if target is None and isinstance(call.func, ast.Attribute) and call.func.attr == "add" and isinstance(call.func.value, ast.Name) \
+                and self.types.get(call.func.value.id) == "sset" and len(call.args) == 1 and not call.keywords:
+            e, ety = self.pure(call.args[0])
+            if ety != "ostr":
+                raise Unsupported("%s: set.add(%s)" % (self.name, ety))
+            x = "v_" + call.func.value.id
+            return "let %s : sset := sset_add %s %s in\n%s" % (x, x, e, after(env))
+        # <mapper>.add_translate_token(token, taxon)
+        if target is None and isinstance(call.func, ast.Attribute) and call.func.attr == "add_translate_token" \
+                and isinstance(call.func.value, ast.Name) and self.types.get(call.func.value.id) == "omap" \
+                and len(call.args) == 2 and not call.keywords:
+            a, aty = self.pure(call.args[0])
+            b, bty = self.pure(call.args[1])
+            if aty != "ostr" or bty != "otaxon":
+                raise Unsupported("%s: add_translate_token(%s, %s)" % (self.name, aty, bty))
+            x = "v_" + call.func.value.id
+            return "let %s : option (gmap) := ifc_mapper_add_token s %s %s %s in\n%s" % (x, x, a, b, after(env))
         # self._taxon_namespaces.append(ns) / self._tree_lists.append(tl)
         if target is None and isinstance(call.func, ast.Attribute) and call.func.attr == "append" and self.is_self_attr(call.func.value) \
                 and call.func.value.attr in ("_taxon_namespaces", "_tree_lists") and len(call.args) == 1 and not call.keywords:
@@ -790,7 +1172,15 @@ class Fn:
         e2 = env
         if target is not None:
             e2 = self.define(e2, target)
+        locked = []
+        for lv in self.locked_by(call):
+            a = lv + "__is_mutable"
+            self.types[a] = "bool"
+            e2 = self.define(e2, a)
+            locked.append(a)
         body = after(e2)
+        for a in locked:
+            body = "let v_%s : bool := false in\n%s" % (a, body)
         if isinstance(factory, tuple) and target is not None:
             if factory[1] != "None":
                 body = "let s := ifc_accession_opt s %s %s in\n%s" % (factory[1], tv, body)
@@ -801,8 +1191,26 @@ class Fn:
         return self.bind(op, pat, body)
 
     def reader_call(self, call):
-        """reader.read_tree_lists(stream=.., taxon_namespace_factory=.., tree_list_factory=.., global_annotations_target=None)"""
+        """reader.read_tree_lists(stream=.., taxon_namespace_factory=.., tree_list_factory=.., global_annotations_target=None)
+           reader.read_dataset(stream=.., dataset=.., taxon_namespace=.., exclude_trees=.., exclude_chars=.., state_alphabet_factory=..)"""
         f = call.func
+        if isinstance(f, ast.Attribute) and f.attr == "read_dataset" and isinstance(f.value, ast.Name) \
+                and self.types.get(f.value.id) == "reader":
+            kws = {k.arg: k.value for k in call.keywords}
+            if call.args or sorted(kws) != ["dataset", "exclude_chars", "exclude_trees", "state_alphabet_factory", "stream", "taxon_namespace"]:
+                raise Unsupported("%s: arguments of read_dataset" % self.name)
+            stream, sty = self.pure(kws["stream"])
+            tns, nty = self.pure(kws["taxon_namespace"], want="ons")
+            et, ety = self.pure(kws["exclude_trees"])
+            ec, cty = self.pure(kws["exclude_chars"])
+            ds = kws["dataset"]
+            saf = kws["state_alphabet_factory"]
+            ok = sty == "doc" and nty == "ons" and ety == "bool" and cty == "bool" and isinstance(ds, ast.Name) \
+                and self.types.get(ds.id) == "dsval" and isinstance(saf, ast.Attribute) and saf.attr == "StateAlphabet"
+            if not ok:
+                raise Unsupported("%s: read_dataset argument types" % self.name)
+            op = "ifc_read_dataset v_%s fuel s %s v_%s %s %s %s" % (f.value.id, stream, ds.id, tns, et, ec)
+            return op, "unit", [ds.id], None
         if not (isinstance(f, ast.Attribute) and f.attr == "read_tree_lists" and isinstance(f.value, ast.Name)
                 and self.types.get(f.value.id) == "reader"):
             return None
@@ -835,11 +1243,34 @@ class Fn:
         op = "ifc_read_tree_lists v_%s %s fuel s %s %s" % (f.value.id, tlf, stream, tl)
         return op, "olist", [tgt] if tgt is not None else ["_"], None
 
+    def locked_by(self, call):
+        """local namespace variables that a call of a translated method locks (it constructs a symbol mapper over them)"""
+        sm = self.self_call(call)
+        out = []
+        if sm in self.translated:
+            spec = self.translated[sm]
+            names = [it[0] for it in spec["params"]]
+            for p in spec.get("locks", []):
+                idx = names.index(p)
+                cand = call.args[idx] if idx < len(call.args) else next((k.value for k in call.keywords if k.arg == p), None)
+                if isinstance(cand, ast.Name) and self.types.get(cand.id) == "ons":
+                    out.append(cand.id)
+        return out
+
     def translated_is_generator(self, call):
         sm = self.self_call(call)
         return sm in self.translated and self.translated[sm].get("generator")
 
     def assign(self, target, value, after, env):
+        # self.<followed attribute> = e
+        if self.spec.get("self_attrs") and self.is_self_attr(target) and target.attr in SELF_ATTRS:
+            ty = SELF_ATTRS[target.attr]
+            v, vty = self.pure(value, want=ty)
+            if vty != ty:
+                raise Unsupported("%s: self.%s := %s" % (self.name, target.attr, vty))
+            a = "self__" + target.attr
+            self.types[a] = ty
+            return "let v_%s : %s := %s in\n%s" % (a, self.ctype(ty), v, after(self.define(env, a)))
         # self.<attr> = ...
         if self.is_self_attr(target):
             if target.attr == "_file_specified_ntax":
@@ -853,9 +1284,31 @@ class Fn:
                     raise Unsupported("%s: nchar := %s" % (self.name, ty))
                 return "let s := rd_set_nchar s %s in\n%s" % (v, after(env))
             raise Unsupported("%s: assignment to self.%s" % (self.name, target.attr))
+        # <TaxonNamespace>.is_mutable = <bool>: the attribute is followed as a local of this function
+        if isinstance(target, ast.Attribute) and target.attr == "is_mutable" and isinstance(target.value, ast.Name) \
+                and self.types.get(target.value.id) == "ons":
+            v, ty = self.pure(value)
+            if ty != "bool":
+                raise Unsupported("%s: is_mutable := %s" % (self.name, ty))
+            a = target.value.id + "__is_mutable"
+            self.types[a] = "bool"
+            return "let v_%s : bool := %s in\n%s" % (a, v, after(self.define(env, a)))
         # self._nexus_tokenizer.allow_eof = <bool>
         if self.tokenizer_attr(target) == "allow_eof" and isinstance(value, ast.Constant) and value.value in (True, False):
             return "let s := tk_set_allow_eof s %s in\n%s" % ("true" if value.value else "false", after(env))
+        # <DataSet>.attached_taxon_namespace = ns
+        if self.entry and isinstance(target, ast.Attribute) and target.attr == "attached_taxon_namespace" \
+                and isinstance(target.value, ast.Name) and self.types.get(target.value.id) == "dsval":
+            v, ty = self.pure(value, want="ons")
+            if ty != "ons":
+                raise Unsupported("%s: dataset.attached_taxon_namespace := %s" % (self.name, ty))
+            x = "v_" + target.value.id
+            return "let %s : dsval T := ds_attach %s %s in\n%s" % (x, x, v, after(env))
+        # dataset = DataSet(label=..)
+        if self.entry and isinstance(target, ast.Name) and self.types.get(target.id) == "dsval" and isinstance(value, ast.Call) \
+                and isinstance(value.func, ast.Name) and value.func.id == "DataSet" and not value.args \
+                and [k.arg for k in value.keywords] == ["label"]:
+            return "let v_%s : dsval T := ds_new in\n%s" % (target.id, after(self.define(env, target.id)))
         # reader.attached_taxon_namespace = <the namespace of the route>
         if self.entry and isinstance(target, ast.Attribute) and target.attr == "attached_taxon_namespace" \
                 and isinstance(target.value, ast.Name) and self.types.get(target.value.id) == "reader":
@@ -907,6 +1360,12 @@ class Fn:
             if value.args or sorted(kws) != ["case_sensitive", "enable_lookup_by_taxon_number", "taxon_namespace"] or want != "omap":
                 raise Unsupported("%s: NexusTaxonSymbolMapper(..) shape" % self.name)
             ns, nty = self.pure(kws["taxon_namespace"], want="ons")
+            nsnode = kws["taxon_namespace"]
+            if isinstance(nsnode, ast.Name) and nsnode.id in [it[0] for it in self.spec["params"]]:
+                # the constructor locks the namespace it is given (is_mutable = False): callers see it
+                self.spec.setdefault("locks", [])
+                if nsnode.id not in self.spec["locks"]:
+                    self.spec["locks"].append(nsnode.id)
             btxt, bty = self.pure(kws["enable_lookup_by_taxon_number"])
             if nty != "ons" or bty != "bool":
                 raise Unsupported("%s: NexusTaxonSymbolMapper(..) arguments" % self.name)
@@ -937,6 +1396,8 @@ class Fn:
             return "match py_index %s %s with\n| None => %s\n| Some v_%s =>\n%s\nend" % (
                 seq, idx, self.err("IndexErr"), name, after(self.define(env, name)))
         v, ty = self.pure(value, want=want)
+        if ty == "int" and want == "oint":
+            v, ty = "(Some %s)" % v, "oint"
         if ty != want:
             if want == "tree" and ty == "otree":
                 raise Unsupported("%s: %s := optional tree" % (self.name, name))
@@ -1092,6 +1553,19 @@ class Fn:
             callee = self.self_call(st.iter)
             r = self.fresh()
             return "ybind %s (%s fuel s) (fun %s => let '(_, s) := %s in\n%s)" % (self.yT, gname(callee), r, r, after(env))
+        # for tree in self.tree_iter(stream=.., taxon_symbol_mapper=M, tree_factory=F): pass   (the iterator is run to its end)
+        if self.spec.get("self_attrs") and isinstance(st.iter, ast.Call) and self.is_self_attr(st.iter.func, "tree_iter") \
+                and len(st.body) == 1 and isinstance(st.body[0], ast.Pass) and not st.orelse and isinstance(st.target, ast.Name):
+            kws = {k.arg: k.value for k in st.iter.keywords}
+            if st.iter.args or sorted(kws) != ["stream", "taxon_symbol_mapper", "tree_factory"]:
+                raise Unsupported("%s: arguments of tree_iter" % self.name)
+            stv, sty = self.pure(kws["stream"])
+            m = kws["taxon_symbol_mapper"]
+            fac, fty = self.pure(kws["tree_factory"])
+            if not (isinstance(m, ast.Name) and self.types.get(m.id) == "omap") or fty != "factory" or sty != "unit":
+                raise Unsupported("%s: tree_iter argument types" % self.name)
+            op = "ydrain (g_newick_tree_iter T lower parse_tree fuel s %s v_%s %s)" % (stv, m.id, fac)
+            return self.bind(op, "(_, v_%s, s)" % m.id, after(env))
         # for x in self._taxon_namespaces: if <test on x>: <list>.append(x)     (a filter, in registry order)
         if isinstance(st.target, ast.Name) and self.is_self_attr(st.iter, "_taxon_namespaces") and not st.orelse \
                 and len(st.body) == 1 and isinstance(st.body[0], ast.If) and not st.body[0].orelse and len(st.body[0].body) == 1:
@@ -1141,6 +1615,53 @@ class Fn:
                         raise Unsupported("%s: for over %s" % (self.name, sty))
                     src = seq
                 return "let %s : list T := ifc_extend %s %s in\n%s" % (recv, recv, src, after(env))
+        # for x in <finite list> / for i, x in enumerate(<finite list>): body without break / return
+        if not self.gen and not st.orelse:
+            it = st.iter
+            enum = isinstance(it, ast.Call) and isinstance(it.func, ast.Name) and it.func.id == "enumerate" and len(it.args) == 1 and not it.keywords
+            seq, sty = self.pure(it.args[0] if enum else it)
+            elem = {"otaxonlist": "otaxon", "nslist": "ns", "tlist": "tree", "olist": "tlist", "yielder": "tree"}.get(sty)
+            if elem is None:
+                raise Unsupported("%s: for over %s" % (self.name, sty))
+            gen_end = None
+            if sty == "yielder":
+                # an iterator: the items it hands out, then (in the for statement) the exception it ends with, if any
+                gen_end = "yl_end %s" % seq
+                seq = "(yl_items %s)" % seq
+            if enum:
+                if not (isinstance(st.target, ast.Tuple) and len(st.target.elts) == 2 and all(isinstance(e, ast.Name) for e in st.target.elts)):
+                    raise Unsupported("%s: enumerate target" % self.name)
+                iname, xname = st.target.elts[0].id, st.target.elts[1].id
+                targets = [(iname, "int"), (xname, elem)]
+                seq = "(enum_z %s)" % seq
+                pat = "'(v_%s, v_%s)" % (iname, xname)
+            else:
+                if not isinstance(st.target, ast.Name):
+                    raise Unsupported("%s: for target" % self.name)
+                targets = [(st.target.id, elem)]
+                pat = "v_%s" % st.target.id
+            saved = {}
+            for nme, ty in targets:
+                saved[nme] = self.types.get(nme)
+                self.types[nme] = ty
+            try:
+                tnames = [nme for nme, _ in targets]
+                carried = [v for v in self.types if v in self.assigned(st.body) and v in env["defined"] and v not in tnames]
+                tup = "(" + ", ".join(["s"] + ["v_" + v for v in carried]) + ")"
+                inner = {"defined": env["defined"] | set(tnames), "in_for": True}
+                body = self.block(st.body, lambda e: self.ok(tup), inner)
+            finally:
+                for nme, old in saved.items():
+                    if old is None:
+                        del self.types[nme]
+                    else:
+                        self.types[nme] = old
+            op = "for_res (fun acc__ %s => let '%s := acc__ in\n%s) %s %s" % (pat, tup, body, seq, tup)
+            rest_txt = after(env)
+            if gen_end is not None:
+                r = self.fresh()
+                rest_txt = "do %s <- %s ;;\n%s" % (r, gen_end, rest_txt)
+            return self.bind(op, tup, rest_txt)
         raise Unsupported("%s: for loop %s" % (self.name, ast.dump(st.iter)[:100]))
 
     # ---------------------------------------------------------------- function
@@ -1206,6 +1727,12 @@ class Fn:
     def compile(self):
         body = list(self.node.body)
         env = {"defined": set(it[0] for it in self.spec["params"])}
+        extra = []
+        if self.spec.get("self_attrs"):
+            extra = list(self.spec.get("fn_params", [])) + list(SELF_IN_PARAMS)
+            for nme, ty in extra:
+                self.types[nme] = ty
+                env["defined"].add(nme)
         prelude = None
         if body and isinstance(body[0], ast.Expr) and isinstance(body[0].value, ast.Constant):
             body = body[1:]
@@ -1218,6 +1745,8 @@ class Fn:
             defaults = [None] * (len(pos) - len(self.node.args.defaults)) + list(self.node.args.defaults)
             for a, d in zip(pos, defaults):
                 declared = next((it[2] for it in self.spec["params"] if it[0] == a.arg and len(it) > 2), None)
+                if a.arg in self.spec.get("const_params", {}):
+                    declared = self.spec["const_params"][a.arg]
                 if d is None:
                     if declared is not None:
                         raise Unsupported("%s: parameter %s lost its default" % (self.name, a.arg))
@@ -1240,14 +1769,15 @@ class Fn:
                 raise Unsupported("%s: parameters" % self.name)
         else:
             names = [a.arg for a in self.node.args.args[1:]]
-            if names != [it[0] for it in self.spec["params"]]:
+            if names != [it[0] for it in self.spec["params"]] + list(self.spec.get("const_params", {})):
                 raise Unsupported("%s: parameters are %s" % (self.name, names))
         text = self.block(body, self.fall_off, env)
         if self.setup_left:
             raise Unsupported("%s: expected statement missing: %s" % (self.name, self.setup_left[0][:100]))
         if prelude:
             text = self.bind(prelude, "(_, s)", text)
-        params = "".join(" (v_%s : %s)" % (it[0], self.ctype(it[1])) for it in self.spec["params"])
+        params = "".join(" (v_%s : %s)" % (nme, self.ctype(ty)) for nme, ty in extra) + \
+            "".join(" (v_%s : %s)" % (it[0], self.ctype(it[1])) for it in self.spec["params"])
         head = "Definition %s (fuel : nat) (s : %s)%s : %s :=\n%s." % (
             gname(self.spec.get("name", self.name)), self.state_ty, params, self.result_type(self.ret_tuple_type()), text)
         return "\n\n".join(self.loops + [head])
@@ -1295,6 +1825,15 @@ Notation ifc_parse_taxlabels := (ifc_parse_taxlabels T lower c).
 Notation tk_set_allow_eof := (tk_set_allow_eof T).
 Notation ifc_new_mapper := (ifc_new_mapper T lower).
 Notation rd_reader_attached := (rd_reader_attached c).
+Notation tx_lower_label := (tx_lower_label lower).
+Notation o_lower := (o_lower lower).
+Notation rd_ns_members := (rd_ns_members T).
+Notation rd_ns_len := (rd_ns_len T).
+Notation rd_ns_truthy := (rd_ns_truthy T).
+Notation rd_ns_get_taxon := (rd_ns_get_taxon T lower).
+Notation ifc_ns_new_taxon := (ifc_ns_new_taxon T).
+Notation ifc_ns_require_taxon := (ifc_ns_require_taxon T lower).
+Notation ifc_mapper_add_token := (ifc_mapper_add_token T lower).
 Notation rd_ns_count := (rd_ns_count T).
 Notation rd_ns_at := (rd_ns_at T).
 Notation rd_registry := (rd_registry T).
@@ -1315,6 +1854,23 @@ Notation gmap := C13GenPrims.gmap.
 """
 
 
+READERS_HEADER = """(* ---- reader-level methods: _read of the two reader classes, DataReader.read_tree_lists / read_dataset ---- *)
+Section Readers.
+Variable T : Type.
+Variables lower upper : str -> str.
+Variable parse_tree : mapper -> tz -> res (option T * mapper * tz).
+Variable set_label : T -> option str -> T.
+Variable add_comments : T -> list str -> T.
+Notation gst := (gst T).
+Notation ifc_product := (ifc_product T).
+Notation rd_tree_lists := (rd_tree_lists T).
+Notation ifc_ns_factory_of := (ifc_ns_factory_of T).
+Notation ifc_tree_list_factory_of := (ifc_tree_list_factory_of T).
+Notation ifc_new_mapper := (ifc_new_mapper T lower).
+Notation ydrain := (ydrain T).
+"""
+
+
 ENTRY_HEADER = """(* ---- the entry points with offsets ---- *)
 Section Entry.
 Variable T : Type.
@@ -1323,6 +1879,12 @@ Notation ifc_set_tree_label := (ifc_set_tree_label T set_label).
 Notation ifc_read_tree_lists := (ifc_read_tree_lists T).
 Notation rd_attach := (rd_attach T).
 Notation ifc_extend := (ifc_extend T).
+Notation ifc_read_dataset := (ifc_read_dataset T).
+Notation yl_items := (yl_items T).
+Notation yl_end := (yl_end T).
+Notation yl_file_index := (yl_file_index T).
+Notation ds_new := (ds_new T).
+Notation ds_attach := (ds_attach T).
 """
 
 
@@ -1354,6 +1916,13 @@ def generate(repo):
         text = fn.compile()
         out.append("(* %s.%s  (%s) *)\n%s" % (cls, name, FILES[key], text))
     out.append("End Routes.\n")
+    out.append(READERS_HEADER)
+    for key, cls, name, spec in READERS:
+        node = find_function(trees[key], cls, name)
+        fn = Fn(name, node, spec, {})
+        text = fn.compile()
+        out.append("(* %s.%s  (%s) *)\n%s" % (cls, name, FILES[key], text))
+    out.append("End Readers.\n")
     out.append(ENTRY_HEADER)
     for key, cls, name, spec in ENTRY:
         node = find_function(trees[key], cls, name)
